@@ -33,14 +33,14 @@ Publish(d, da, o) ==
 
 TInit ==
   /\ InitWith([partial |-> FALSE, bounce |-> FALSE, nullSender |-> FALSE, mt |-> 1, list |-> <<>>,
-               rw |-> {}, utf8 |-> FALSE])
+               rw |-> {}, utf8 |-> FALSE, enh |-> TRUE])
   /\ l = 1 /\ drift = FALSE /\ driftAt = 0 /\ tno = 0
   /\ TLCSet(1, {})
 
 TReset ==
   /\ IsEv("Cfg")
   /\ LET c == [partial |-> Ev.partial, bounce |-> Ev.bounce, nullSender |-> Ev.nullSender,
-               mt |-> Ev.mt, list |-> Ev.list, rw |-> ToSet(Ev.rw), utf8 |-> Ev.utf8] IN
+               mt |-> Ev.mt, list |-> Ev.list, rw |-> ToSet(Ev.rw), utf8 |-> Ev.utf8, enh |-> Ev.enh] IN
        /\ cfg' = c
        /\ to' = IF "DupRcpt" \in Devs THEN c.list ELSE Dedup(c.list)
   /\ phase' = "accept"
@@ -62,10 +62,17 @@ RepOf(e) ==
   [ mimeOK |-> e.mimeOK, reportType |-> e.reportType, parts |-> e.parts, dsnAscii |-> e.dsnAscii,
     returnPath |-> e.from, toSender |-> e.toSender, hasOrigHdr |-> e.hasOrigHdr,
     origSubjOK |-> e.origSubjOK, listed |-> e.rcpts, rewritten |-> ToSet(e.rewritten),
-    status |-> e.status ]
+    status |-> e.status, cls |-> e.cls ]
 C_Dsn      == /\ IsEv("Dsn") /\ Ev.stage \in BounceStages
               /\ Ev.known = (Ev.stage \notin {"start", "rcpt"})
-              /\ Ev.known => [RepOf(Ev) EXCEPT !.dsnAscii = @ \/ cfg.utf8] = GoodReport(ExpectedReport)
+              \* (an unclassified failure has no scripted status: the design stores the generic 4.0.0, a real client may
+              \*  derive a more specific one of the same class - e.g. 4.4.2 for a connection reset in mid-transfer; the
+              \*  class is what ReportStatusMismatch checks)
+              /\ Ev.known => LET exp == GoodReport(ExpectedReport)
+                                  got == [RepOf(Ev) EXCEPT !.dsnAscii = @ \/ cfg.utf8] IN
+                              /\ [got EXCEPT !.status = exp.status] = exp
+                              /\ DOMAIN got.status = DOMAIN exp.status
+                              /\ \A r \in DOMAIN exp.status : rerr[r] = "unspec" \/ got.status[r] = exp.status[r]
               /\ Dsn(Ev.stage)
 C_Quiesced == IsEv("Quiesced") /\ Ev.spoolEmpty /\ Quiesce
 
@@ -89,7 +96,7 @@ ObsApply(o, e) ==
     [] e.e = "TCommit"  -> ObsCommit(o, e.res, cfg.mt)
     [] e.e = "TAbort"   -> ObsAbort(o, cfg.mt)
     [] e.e = "Dsn"      -> IF e.known
-                           THEN ObsReport(ObsDsn(o, ToSet(e.rcpts), Suppress(cfg)), RepOf(e), cfg.utf8)
+                           THEN ObsReport(ObsDsn(o, ToSet(e.rcpts), Suppress(cfg)), RepOf(e), cfg.utf8, cfg.enh)
                            ELSE ObsDsn(o, o.owed, Suppress(cfg))
     [] e.e = "Dsn2"     -> V(o, FALSE, "ReportAboutReport")
     [] e.e = "Quiesced" -> ObsQuiesced(o, Suppress(cfg), e.spoolEmpty)
